@@ -128,6 +128,29 @@ def apply(prog, verif_dir):
     if n:
         prog._callers = None
     prog.inlined_bodies = n
+    # helpers whose every call was inlined are dead as stand-alone bodies: taken out of the program, so that censuses over all bodies
+    # ("who reads the password field", "who stores the state") see their code only where it now lives, in the callers
+    prog.absorbed_bodies = {}
+    prog.helper_paths = {}          # caller path -> paths of the helpers inlined into it (for closures_of)
+    into = getattr(prog, 'inlined_into', {})
+    changed = True
+    while changed:
+        changed = False
+        for key in list(into):
+            b = prog.bodies.get(key)
+            if b is None or key in known or b.kind == 'Closure':
+                continue
+            if prog.callers.get(key):
+                continue
+            prog.absorbed_bodies[key] = prog.bodies.pop(key)
+            prog._callers = None
+            changed = True
+    for key, callers in into.items():
+        if key in prog.absorbed_bodies:
+            for ck in callers:
+                cb = prog.bodies.get(ck) or prog.absorbed_bodies.get(ck)
+                if cb is not None:
+                    prog.helper_paths.setdefault(cb.path, set()).add(prog.absorbed_bodies[key].path)
     return n
 
 
